@@ -1321,7 +1321,7 @@ class TensorTerm(SplineTerm, MetaTermMixin):
         terms = []
         for term_info in info['terms']:
             terms.append(SplineTerm.build_from_info(term_info))
-        return cls(*terms)
+        return cls(*terms, by=info.get('by'))
 
     @property
     def hasconstraint(self):
